@@ -4,6 +4,7 @@
 //! for anchors at the tail / mid-thread / far from the tail under several cache states (as found,
 //! `continuity_streams/` removed, single faults on each cache file), twice on the same store, and again
 //! after more frames were appended beyond the cut.
+//! and — deterministically, from inside the rip_verif points of an append — while further frames are being appended.
 //!   correspondence: decision + bundle (ids mapped to seqs / ordinals) vs coq/Model/Compile.v
 //!   independent oracle: (a) equality of bundle + decision JSON across cache states / read paths /
 //!   later frames, (b) the bundle against a straight re-computation from the replayed truth log.
@@ -77,19 +78,23 @@ struct Case {
     faults: Vec<(Target, FaultKind)>,
     #[serde(default)]
     big: bool,
+    /// appends during which a compile runs at every instrumented point (after `later`)
+    #[serde(default)]
+    race: Vec<Op>,
 }
 
 // ---------------------------------------------------------------- store plumbing
+#[derive(Clone)]
 struct Opened {
     log: Arc<EventLog>,
-    store: ContinuityStore,
+    store: Arc<ContinuityStore>,
 }
 fn open(root: &Path) -> Opened {
     let data = root.join("data");
     let ws = root.join("workspace");
     std::fs::create_dir_all(&ws).unwrap();
     let log = Arc::new(EventLog::new(data.join("events.jsonl")).expect("log"));
-    let store = ContinuityStore::new(data, ws, log.clone()).expect("store");
+    let store = Arc::new(ContinuityStore::new(data, ws, log.clone()).expect("store"));
     Opened { log, store }
 }
 fn streams_dir(root: &Path) -> PathBuf {
@@ -696,7 +701,18 @@ fn gen_case(r: &mut Rng, i: u64) -> Case {
         }
         faults.push((t, k));
     }
-    Case { ops, anchors, later: gen_later(r, nmsg), faults, big: false }
+    let mut race = vec![];
+    if i % 4 == 0 && n <= 40 {
+        for _ in 0..r.range(1, 3) {
+            race.push(match r.below(6) {
+                0 | 1 => Op::Msg { size: *r.pick(&[5u64, 200]) },
+                2 => Op::RunEnded { run: r.below(6) },
+                3 => Op::Cursor,
+                _ => Op::SideFx,
+            });
+        }
+    }
+    Case { ops, anchors, later: gen_later(r, nmsg), faults, big: false, race }
 }
 /// threads whose mr sidecar is larger than every tail window (8 MiB): anchors far from the tail go
 /// through the seekable window, anchors near the tail through several doublings of the tail scan
@@ -710,7 +726,7 @@ fn big_cases() -> Vec<Case> {
         }
     }
     ops.push(Op::SideFx);
-    let a = Case { ops: ops.clone(), anchors: vec![Anchor::Msg(0), Anchor::Msg(1), Anchor::Msg(2), Anchor::Msg(6), Anchor::Last], later: vec![Op::Checkpoint { msg: 0 }, Op::SideFx], faults: vec![(Target::Mr, FaultKind::Delete), (Target::MrMsgIdx, FaultKind::Delete), (Target::Seek, FaultKind::Garbage)], big: true };
+    let a = Case { ops: ops.clone(), anchors: vec![Anchor::Msg(0), Anchor::Msg(1), Anchor::Msg(2), Anchor::Msg(6), Anchor::Last], later: vec![Op::Checkpoint { msg: 0 }, Op::SideFx], faults: vec![(Target::Mr, FaultKind::Delete), (Target::MrMsgIdx, FaultKind::Delete), (Target::Seek, FaultKind::Garbage)], big: true, race: vec![] };
     // 20 messages of 300 KiB: the first 256 KiB window holds no message, 16 messages need ~5 MiB
     let mut ops2 = vec![];
     for k in 0..22 {
@@ -719,15 +735,15 @@ fn big_cases() -> Vec<Case> {
             ops2.push(Op::SideFx);
         }
     }
-    let b = Case { ops: ops2, anchors: vec![Anchor::Last, Anchor::Msg(20), Anchor::Msg(3), Anchor::Msg(0)], later: vec![Op::SideFx, Op::Checkpoint { msg: 1 }], faults: vec![(Target::Full, FaultKind::Delete), (Target::MrSeek, FaultKind::Delete)], big: true };
+    let b = Case { ops: ops2, anchors: vec![Anchor::Last, Anchor::Msg(20), Anchor::Msg(3), Anchor::Msg(0)], later: vec![Op::SideFx, Op::Checkpoint { msg: 1 }], faults: vec![(Target::Full, FaultKind::Delete), (Target::MrSeek, FaultKind::Delete)], big: true, race: vec![] };
     vec![a, b]
 }
 fn corpus_cases() -> Vec<Case> {
     vec![
         // S9: a checkpoint frame appended after the cut, to_seq at or before it
-        Case { ops: vec![Op::Msg { size: 5 }, Op::Msg { size: 5 }, Op::Msg { size: 5 }], anchors: vec![Anchor::Msg(1), Anchor::Msg(0)], later: vec![Op::Checkpoint { msg: 0 }], faults: vec![], big: false },
+        Case { ops: vec![Op::Msg { size: 5 }, Op::Msg { size: 5 }, Op::Msg { size: 5 }], anchors: vec![Anchor::Msg(1), Anchor::Msg(0)], later: vec![Op::Checkpoint { msg: 0 }], faults: vec![], big: false, race: vec![] },
         // exactly `limit` and limit+1 messages, reply on the oldest one
-        Case { ops: std::iter::once(Op::Msg { size: 5 }).chain([Op::Run { msg: 0, text: 2, snap: 0 }, Op::RunEnded { run: 0 }]).chain((0..16).map(|_| Op::Msg { size: 5 })).collect(), anchors: vec![Anchor::Last, Anchor::Msg(15), Anchor::Msg(16), Anchor::Msg(0)], later: vec![Op::Msg { size: 5 }], faults: vec![(Target::Full, FaultKind::Delete)], big: false },
+        Case { ops: std::iter::once(Op::Msg { size: 5 }).chain([Op::Run { msg: 0, text: 2, snap: 0 }, Op::RunEnded { run: 0 }]).chain((0..16).map(|_| Op::Msg { size: 5 })).collect(), anchors: vec![Anchor::Last, Anchor::Msg(15), Anchor::Msg(16), Anchor::Msg(0)], later: vec![Op::Msg { size: 5 }], faults: vec![(Target::Full, FaultKind::Delete)], big: false, race: vec![] },
         // checkpoint at the anchor, to_seq ties (the later frame wins), halving with thresholds 0 / 1
         Case {
             ops: vec![Op::Msg { size: 5 }, Op::Msg { size: 5 }, Op::Checkpoint { msg: 0 }, Op::Checkpoint { msg: 0 }, Op::Msg { size: 5 }, Op::Checkpoint { msg: 1 }, Op::Msg { size: 5 }, Op::Msg { size: 5 }, Op::Checkpoint { msg: 3 }, Op::Checkpoint { msg: 4 }, Op::SideFx],
@@ -735,9 +751,10 @@ fn corpus_cases() -> Vec<Case> {
             later: vec![Op::Checkpoint { msg: 2 }, Op::Msg { size: 5 }],
             faults: vec![(Target::Comp, FaultKind::Delete), (Target::CompIdx, FaultKind::Garbage)],
             big: false,
+            race: vec![Op::SideFx, Op::Msg { size: 5 }, Op::RunEnded { run: 0 }],
         },
         // a reply that arrives after the cut must not be in the bundle; two runs for one message
-        Case { ops: vec![Op::Msg { size: 5 }, Op::Run { msg: 0, text: 2, snap: 0 }, Op::Run { msg: 0, text: 3, snap: 2 }, Op::RunEnded { run: 0 }, Op::Msg { size: 5 }, Op::RunEnded { run: 1 }, Op::SideFx], anchors: vec![Anchor::Msg(0), Anchor::Last], later: vec![Op::RunEnded { run: 0 }], faults: vec![(Target::Mr, FaultKind::Delete)], big: false },
+        Case { ops: vec![Op::Msg { size: 5 }, Op::Run { msg: 0, text: 2, snap: 0 }, Op::Run { msg: 0, text: 3, snap: 2 }, Op::RunEnded { run: 0 }, Op::Msg { size: 5 }, Op::RunEnded { run: 1 }, Op::SideFx], anchors: vec![Anchor::Msg(0), Anchor::Last], later: vec![Op::RunEnded { run: 0 }], faults: vec![(Target::Mr, FaultKind::Delete)], big: false, race: vec![] },
     ]
 }
 
@@ -760,6 +777,7 @@ struct CaseOut {
     later_baselines: Vec<Out>,
     op_errors: u64,
     id: String,
+    race: Option<RaceOut>,
 }
 
 fn resolve_anchor(a: &Anchor, h: &Hist, truth: &[Event]) -> String {
@@ -812,15 +830,80 @@ fn run_case(case: &Case, limit: usize, max_refs: usize) -> CaseOut {
     }
     // more frames beyond every cut
     apply_ops(&mut o, &root, &mut h, &case.later);
-    drop(o);
     let abs_later = abstract_truth(replay_truth(&root, &id), &h.runs);
+    let runs_later = h.runs.clone();
     let mut later_baselines = vec![];
     for c in &compiled {
         copy_store(&root, &tmp, true);
         let mut v = compile_at(&tmp, &id, &c.anchor_id, 1, secs);
         later_baselines.push(v.pop().unwrap());
     }
-    CaseOut { abs, abs_later, runs, runs_later: h.runs.clone(), compiled, later_baselines, op_errors: h.op_errors, id }
+    // appends racing with compilation (on the live store, after everything else was observed on copies)
+    let race = if case.race.is_empty() {
+        None
+    } else {
+        let anchors: Vec<String> = compiled.iter().map(|c| c.anchor_id.clone()).collect();
+        Some(race_phase(&mut o, &root, &mut h, &case.race, &anchors))
+    };
+    drop(o);
+    CaseOut { abs, abs_later, runs, runs_later, compiled, later_baselines, op_errors: h.op_errors, id, race }
+}
+
+// ---------------------------------------------------------------- appends racing with compilation
+thread_local! { static IN_HOOK: std::cell::Cell<bool> = const { std::cell::Cell::new(false) }; }
+struct RaceObs {
+    point: &'static str,
+    op_idx: usize,
+    anchor_idx: usize,
+    out: Out,
+}
+struct RaceOut {
+    /// per op: (outcome per anchor before the op, after the op)
+    frames: Vec<(Vec<Out>, Vec<Out>)>,
+    /// per op: head seq of the thread after the op
+    heads: Vec<u64>,
+    obs: Vec<RaceObs>,
+}
+/// Runs `ops` on the live store; at every `cont.*` / `log.*` / `cache.*` point inside those appends the real
+/// compile runs for every anchor on the same store: exactly the on-disk state a concurrent compiler thread
+/// would find at that instant (deterministic: the appending thread itself is parked in the callback).
+fn race_phase(o: &mut Opened, root: &Path, h: &mut Hist, ops: &[Op], anchors: &[String]) -> RaceOut {
+    let obs: Arc<std::sync::Mutex<Vec<RaceObs>>> = Arc::new(std::sync::Mutex::new(vec![]));
+    let cur = Arc::new(std::sync::atomic::AtomicUsize::new(0));
+    let tid = h.id.clone();
+    let all = |o: &Opened| anchors.iter().map(|a| std::panic::catch_unwind(std::panic::AssertUnwindSafe(|| compile_on(o, root, &tid, a))).unwrap_or(Out::Panic)).collect::<Vec<_>>();
+    let mut frames = vec![];
+    let mut heads = vec![];
+    for (i, op) in ops.iter().enumerate() {
+        if matches!(op, Op::Restart) {
+            continue;
+        }
+        let before = all(o);
+        cur.store(i, std::sync::atomic::Ordering::SeqCst);
+        {
+            let (shared, root2, id2, anchors2, obs2, cur2) = (o.clone(), root.to_path_buf(), h.id.clone(), anchors.to_vec(), obs.clone(), cur.clone());
+            rip_kernel::verif::set_hook(Some(Arc::new(move |name: &'static str| {
+                if !(name.starts_with("cont.") || name.starts_with("log.") || name.starts_with("cache.")) {
+                    return;
+                }
+                if IN_HOOK.with(|f| f.replace(true)) {
+                    return; // a compile inside the callback reached a point itself (cache rebuild)
+                }
+                for (ai, a) in anchors2.iter().enumerate() {
+                    let out = std::panic::catch_unwind(std::panic::AssertUnwindSafe(|| compile_on(&shared, &root2, &id2, a))).unwrap_or(Out::Panic);
+                    obs2.lock().unwrap().push(RaceObs { point: name, op_idx: cur2.load(std::sync::atomic::Ordering::SeqCst), anchor_idx: ai, out });
+                }
+                IN_HOOK.with(|f| f.set(false));
+            })));
+        }
+        apply_ops(o, root, h, std::slice::from_ref(op));
+        rip_kernel::verif::set_hook(None);
+        let after = all(o);
+        frames.push((before, after));
+        heads.push(replay_truth(root, &tid).last().map(|e| e.seq).unwrap_or(0));
+    }
+    let obs = std::mem::take(&mut *obs.lock().unwrap());
+    RaceOut { frames, heads, obs }
 }
 
 /// all oracle violations of a case: (class, what)
@@ -880,6 +963,35 @@ fn judge(case: &Case, out: &CaseOut, limit: usize, max_refs: usize, checks: &mut
             }
         }
     }
+    // (d) a compile that runs in the middle of an append sees the thread before or after that append
+    if let Some(r) = &out.race {
+        let mut flagged: std::collections::BTreeSet<(usize, String)> = Default::default();
+        for ob in &r.obs {
+            *checks += 1;
+            let Some(fi) = case.race.iter().enumerate().filter(|(_, op)| !matches!(op, Op::Restart)).position(|(i, _)| i == ob.op_idx) else { continue };
+            let (before, after) = &r.frames[fi];
+            let head_after = r.heads[fi];
+            let c = ob.out.canon();
+            if c != before[ob.anchor_idx].canon() && c != after[ob.anchor_idx].canon() {
+                let stage = ob.point.rsplit_once('.').map(|(p, _)| p).unwrap_or(ob.point);
+                // S24: head from the full sidecar, messages / run_ended frames from the mr sidecar, written one after
+                // the other: in between the recorded cut is the frame being appended while items and decision are
+                // still those of the thread before it
+                let mr_frame = matches!(case.race[ob.op_idx], Op::Msg { .. } | Op::RunEnded { .. });
+                let same_items = match (&ob.out, &before[ob.anchor_idx]) {
+                    (Out::Ok { bundle: b1, decision: d1, .. }, Out::Ok { bundle: b0, decision: d0, .. }) => b1["items"] == b0["items"] && d1 == d0,
+                    _ => false,
+                };
+                let class = match &ob.out {
+                    Out::Ok { from_seq, .. } if mr_frame && same_items && *from_seq == head_after && (stage == "cache.side" || stage == "cache.mr") => "cut_ahead_of_mr_sidecar_during_append".to_string(),
+                    _ => format!("racing_append_changes_bundle:{stage}"),
+                };
+                if flagged.insert((ob.anchor_idx, class.clone())) {
+                    v.push((ob.anchor_idx, class, format!("anchor {:?}, compile at point {} of {:?}: {}   before the append => {}   after => {}", out.compiled[ob.anchor_idx].anchor, ob.point, case.race[ob.op_idx], brief(&ob.out), brief(&before[ob.anchor_idx]), brief(&after[ob.anchor_idx]))));
+                }
+            }
+        }
+    }
     v
 }
 /// S9 and nothing else: the decision names a checkpoint whose own frame lies after the cut AND the outcome is
@@ -895,6 +1007,16 @@ fn s9_class(a: &Abs, runs: &[RunRec], anchor: &str, out: &Out, limit: usize, max
 fn selected_checkpoint_after_cut(a: &Abs, out: &Out) -> bool {
     let Out::Ok { decision, from_seq, .. } = out else { return false };
     decision["compaction_checkpoints"].as_array().map(|v| v.iter().any(|c| a.seq_of_ckpt.get(c["checkpoint_id"].as_str().unwrap_or("")).map(|s| s > from_seq).unwrap_or(false))).unwrap_or(false)
+}
+/// one-line view of an outcome: cut, strategy, items (s = summary ref, uN = user message at seq N, a = reply)
+fn brief(o: &Out) -> String {
+    match o {
+        Out::Ok { bundle, decision, .. } => {
+            let items: Vec<String> = bundle["items"].as_array().map(|v| v.iter().map(|i| if i["type"] == "summary_ref" { "s".to_string() } else if i["role"] == "user" { format!("u{}", i["thread_seq"]) } else { "a".to_string() }).collect()).unwrap_or_default();
+            format!("from_seq={} strategy={} checkpoints={} items=[{}]", bundle["source"]["from_seq"], bundle["compiler"]["strategy"].as_str().unwrap_or("?"), decision["compaction_checkpoints"].as_array().map(|v| v.len()).unwrap_or(0), items.join(","))
+        }
+        other => other.canon(),
+    }
 }
 fn short(s: &str) -> String {
     if s.len() > 400 {
